@@ -4,7 +4,7 @@
 SPECIFICATION Spec
 CONSTANTS
   MembersFile = "members.ndjson"
-  ExhaustiveFams = {"AllocKind", "DISPFlag"}
+  ExhaustiveFams = {"AllocKind", "DISPFlag", "FastMathFlag", "OverflowFlag"}
   Arity = 2
   RangeLimited = TRUE
 INVARIANTS ExactCover
